@@ -491,3 +491,120 @@ impl Channel {
         broadcast use group_hash_axioms, bridge;
 //@end
 }
+
+// ---- channels from the configuration (C16) ----
+impl Clone for ChannelModes {
+    #[verifier::external_body]
+    fn clone(&self) -> (r: Self) ensures r == *self { unimplemented!() }
+}
+pub open spec fn oset_h(o: Option<HashSet<String>>) -> Set<String> { oset(o) }
+impl ChannelDefaultModes {
+//@fn state/structs.rs ChannelDefaultModes::new_from_modes_and_cleanup unit=structs props=C16
+//@spec
+        ensures
+            r.operators@ == oset(old(modes).operators) && r.half_operators@ == oset(old(modes).half_operators) && r.voices@ == oset(old(modes).voices) // @prop C16
+              && r.founders@ == oset(old(modes).founders) && r.protecteds@ == oset(old(modes).protecteds),
+            final(modes).operators is None && final(modes).half_operators is None && final(modes).voices is None // @prop C16
+              && final(modes).founders is None && final(modes).protecteds is None,
+            final(modes).ban == old(modes).ban && final(modes).exception == old(modes).exception && final(modes).client_limit == old(modes).client_limit // @prop C16
+              && final(modes).invite_exception == old(modes).invite_exception && final(modes).key == old(modes).key && flags_eq_m(*final(modes), *old(modes)),
+//@open
+        broadcast use group_hash_axioms;
+//@end
+}
+pub open spec fn flags_eq_m(a: ChannelModes, b: ChannelModes) -> bool {
+    a.invite_only == b.invite_only && a.moderated == b.moderated && a.secret == b.secret
+    && a.protected_topic == b.protected_topic && a.no_external_messages == b.no_external_messages
+}
+// a channel declared in the configuration, as it exists at start-up
+pub open spec fn configured_channel(ch: Channel, cc: ChannelConfig) -> bool {
+    &&& ch.preconfigured && ch.users@ == Map::<String, ChannelUserModes>::empty() && ch.ban_info@ == Map::<String, BanInfo>::empty()
+    &&& (cc.topic is Some <==> ch.topic is Some) && (cc.topic is Some ==> ch.topic->0.topic == cc.topic->0)
+    &&& ch.modes.ban == cc.modes.ban && ch.modes.exception == cc.modes.exception && ch.modes.invite_exception == cc.modes.invite_exception
+    &&& ch.modes.key == cc.modes.key && ch.modes.client_limit == cc.modes.client_limit && flags_eq_m(ch.modes, cc.modes)
+    &&& ch.modes.operators is None && ch.modes.half_operators is None && ch.modes.voices is None && ch.modes.founders is None && ch.modes.protecteds is None
+    &&& ch.default_modes.operators@ == oset(cc.modes.operators) && ch.default_modes.half_operators@ == oset(cc.modes.half_operators)
+    &&& ch.default_modes.voices@ == oset(cc.modes.voices) && ch.default_modes.founders@ == oset(cc.modes.founders)
+    &&& ch.default_modes.protecteds@ == oset(cc.modes.protecteds)
+}
+pub open spec fn cfg_has(cfg: Seq<ChannelConfig>, upto: int, c: String) -> bool {
+    exists|i: int| 0 <= i < upto && (#[trigger] cfg[i]).name == c
+}
+pub open spec fn cfg_ok(cfg: Seq<ChannelConfig>, upto: int, c: String, ch: Channel) -> bool {
+    exists|i: int| 0 <= i < upto && (#[trigger] cfg[i]).name == c && configured_channel(ch, cfg[i])
+}
+pub open spec fn initial_like(n: VolatileState) -> bool {
+    &&& n.users@ == Map::<String, User>::empty() && n.wallops_users@ == Set::<String>::empty()
+    &&& n.invisible_users_count == 0 && n.operators_count == 0
+    &&& (forall|c: String| n.channels@.contains_key(c) ==> (#[trigger] n.channels@[c]).preconfigured && n.channels@[c].users@ == Map::<String, ChannelUserModes>::empty() && chan_wf(n.channels@[c]))
+}
+pub proof fn lemma_initial_wf(n: VolatileState)
+    requires initial_like(n)
+    ensures state_wf(n)
+{
+    assert forall|u: String, d: String| #![trigger n.users@[u].channels@.contains(d)] #![trigger member(n, u, d)]
+        (n.users@.contains_key(u) && n.users@[u].channels@.contains(d)) <==> member(n, u, d) by {
+        if n.channels@.contains_key(d) { assert(n.channels@[d].users@ == Map::<String, ChannelUserModes>::empty()); }
+    }
+    assert(sym(n));
+    assert(inv_set(n.users@) =~= Set::<String>::empty());
+    assert(opr_set(n.users@) =~= Set::<String>::empty());
+}
+impl VolatileState {
+//@fn state/structs.rs VolatileState::new_from_config unit=structs props=C16,C04 rules=R5,R5b
+//@ascribe channels HashMap<String, Channel>
+//@spec
+        ensures
+            r.users@ == Map::<String, User>::empty(), // @prop C16
+            // exactly the configured channels exist, each as one of its configuration entries says
+            config.channels is None ==> r.channels@ == Map::<String, Channel>::empty(), // @prop C16
+            config.channels is Some ==> forall|c: String| #[trigger] r.channels@.contains_key(c) <==> cfg_has(config.channels->0@, config.channels->0@.len() as int, c), // @prop C16
+            config.channels is Some ==> forall|c: String| #[trigger] r.channels@.contains_key(c) ==> cfg_ok(config.channels->0@, config.channels->0@.len() as int, c, r.channels@[c]), // @prop C16
+            state_wf(r), // @prop C04
+//@open
+        broadcast use group_hash_axioms, bridge;
+//@before ~for c in cfg_channels\.iter\(\)
+            let ghost cfg = cfg_channels@;
+//@loop ~for c in cfg_channels\.iter\(\) iter=itc
+                invariant
+                    cfg == cfg_channels@, itc.seq().len() == cfg.len(),
+                    forall|k: int| 0 <= k < itc.seq().len() ==> itc.seq()[k] == &cfg[k],
+                    forall|n: String| #[trigger] channels@.contains_key(n) <==> cfg_has(cfg, itc.index@ as int, n), // @prop C16
+                    forall|n: String| #[trigger] channels@.contains_key(n) ==> cfg_ok(cfg, itc.index@ as int, n, channels@[n]), // @prop C16
+//@after ~for c in cfg_channels\.iter\(\)
+                broadcast use group_hash_axioms, bridge;
+                let ghost k = itc.index@ as int;
+                let ghost pre = channels@;
+                proof { assert(c == &cfg[k]); }
+//@endloop ~for c in cfg_channels\.iter\(\)
+                proof {
+                    assert(channels@ == pre.insert(cfg[k].name, channels@[cfg[k].name]));
+                    assert(configured_channel(channels@[cfg[k].name], cfg[k]));
+                    assert forall|n: String| #[trigger] channels@.contains_key(n) <==> cfg_has(cfg, k + 1, n) by {
+                        if cfg_has(cfg, k, n) { let i = choose|i: int| 0 <= i < k && (#[trigger] cfg[i]).name == n; assert(0 <= i < k + 1 && cfg[i].name == n); }
+                        if n == cfg[k].name { assert(cfg[k].name == n); }
+                        if cfg_has(cfg, k + 1, n) { let i = choose|i: int| 0 <= i < k + 1 && (#[trigger] cfg[i]).name == n; if i < k { assert(cfg_has(cfg, k, n)); } }
+                    }
+                    assert forall|n: String| #[trigger] channels@.contains_key(n) implies cfg_ok(cfg, k + 1, n, channels@[n]) by {
+                        if n == cfg[k].name { assert(0 <= k < k + 1 && cfg[k].name == n && configured_channel(channels@[n], cfg[k])); }
+                        else {
+                            assert(pre.contains_key(n) && channels@[n] == pre[n]);
+                            let i = choose|i: int| 0 <= i < k && (#[trigger] cfg[i]).name == n && configured_channel(pre[n], cfg[i]);
+                            assert(0 <= i < k + 1 && cfg[i].name == n && configured_channel(channels@[n], cfg[i]));
+                        }
+                    }
+                }
+//@before ~let \(quit_sender, quit_receiver\) = oneshot::channel\(\);
+        proof {
+            let r0 = channels@;
+            assert forall|n: String| r0.contains_key(n) implies r0[n].preconfigured && r0[n].users@ == Map::<String, ChannelUserModes>::empty() && chan_wf(#[trigger] r0[n]) by {
+                if config.channels is Some {
+                    let cfg = config.channels->0@;
+                    assert(cfg_ok(cfg, cfg.len() as int, n, r0[n]));
+                    let i = choose|i: int| 0 <= i < cfg.len() && (#[trigger] cfg[i]).name == n && configured_channel(r0[n], cfg[i]);
+                }
+            }
+            assert forall|n: VolatileState| initial_like(n) implies #[trigger] state_wf(n) by { lemma_initial_wf(n); }
+        }
+//@end
+}
